@@ -32,6 +32,8 @@ RULE = ("close causes {force_disconnect, disconnect, cancel, reuse probe, EOF, R
 
 def shard(ctx: Ctx) -> None:
     sweep.standard_sweep(ctx, PROP)
+    sweep.same_turn_pairs_sweep(ctx, PROP)
+    sweep.stalled_connect_sweep(ctx, PROP)
     if ctx.thorough:
         sweep.pair_sweep(ctx, PROP, 3000)
     else:
